@@ -324,7 +324,7 @@ def build_traces(ctx):
         for seq in itertools.product(LATE, repeat=n):
             traces.append(run_history(LATE_CFG, pre + list(seq)))
     nlate = len(traces) - nex
-    for _ in range(ctx.pick(1200, 12000)):
+    for _ in range(ctx.pick(1000, 12000)):
         traces.append(run_history(random_cfg(ctx.rng), random_ops(ctx.rng, ctx.rng.randint(4, 28))))
     ctx.extra["histories"] = dict(exhaustive_core=nex, exhaustive_late=nlate, random=len(traces) - nex - nlate)
     return traces
@@ -349,7 +349,7 @@ def run(ctx):
             raise MachineryError("vacuity: %s expected reachable, got ok=%s kind=%s" % (what, r.ok, r.kind))
     traces = build_traces(ctx)
     ctx.note_traces(traces)
-    rej = ctx.validate("SmtpSessionTrace", traces, shard_size=1500)
+    rej = ctx.validate("SmtpSessionTrace", traces, shard_size=ctx.pick(max(400, (len(traces) + 3) // 4), 3000))
     for x in rej[:10]:
         t = traces[x.idx]
         e = t["ev"][x.reached] if x.reached < len(t["ev"]) else None
